@@ -213,9 +213,68 @@ def run_case(inp):
     return viols
 
 
+def run_mock(inp):
+    """MockLoader (template posed at each molecule, optional tilt-series noise): the same statements."""
+    import dask
+    import polars as pl
+    from scipy.spatial.transform import Rotation
+    from acryo import Molecules
+    from acryo.loader import MockLoader
+    viols = []
+
+    def V(clause, desc):
+        viols.append({"clause": clause, "desc": desc, "input": dict(inp)})
+
+    r = np.random.default_rng(inp["seed"])
+    n, box = int(inp["n"]), int(inp["box"])
+    tmpl = r.normal(size=(box, box, box)).astype(np.float32)
+    mole = Molecules(r.uniform(0, 10, size=(n, 3)), Rotation.random(n, random_state=inp["seed"]),
+                     features={"g": [int(v) for v in r.integers(0, 3, size=n)]})
+    kw = {}
+    if inp["noise"] > 0 or inp["degrees"]:
+        kw["degrees"] = np.linspace(-60, 60, 7)
+    if inp.get("central_axis"):
+        kw["central_axis"] = tuple(inp["central_axis"])
+    with dask.config.set(scheduler="synchronous"):
+        try:
+            loader = MockLoader(tmpl, mole, noise=float(inp["noise"]), **kw)
+            stack = np.asarray(loader.asnumpy())
+            avg = np.asarray(loader.average())
+        except Exception as e:  # noqa: BLE001
+            V("no-error", f"MockLoader: {type(e).__name__}: {str(e)[:120]}")
+            return viols
+        if not np.allclose(avg, stack.mean(axis=0), rtol=1e-5, atol=1e-4):
+            V("mean", f"MockLoader.average() differs from the mean of its subtomograms by {np.abs(avg - stack.mean(axis=0)).max():.4g}")
+        grp = loader.groupby("g")
+        ga = grp.average()
+        for key, ld in grp:
+            k = key[0] if isinstance(key, tuple) else key
+            want = np.asarray(ld.average())
+            got = ga.get(key, ga.get(k))
+            if got is None or not np.allclose(got, want, rtol=1e-5, atol=1e-4):
+                V("group", f"MockLoader (noise {inp['noise']}, axis {inp.get('central_axis')}): group average for key {key!r} "
+                           f"differs from that group's own loader average")
+        # (a group's split uses the group-level random stream, not the stream its own loader would use: only
+        # reproducibility and shape are required of it)
+        gs = grp.average_split(n_set=1, seed=3)
+        gs2 = grp.average_split(n_set=1, seed=3)
+        for key, ld in grp:
+            if ld.count() < 2:
+                continue
+            k = key[0] if isinstance(key, tuple) else key
+            a1, a2 = gs.get(key, gs.get(k)), gs2.get(key, gs2.get(k))
+            if a1 is None or a2 is None or not np.array_equal(np.asarray(a1), np.asarray(a2), equal_nan=True):
+                V("group-split", f"MockLoader: group average_split for key {key!r} is not reproducible for a fixed seed")
+    return viols
+
+
 def oracle(rng, thorough, deep=False, hints=None):
     big = thorough or deep
     cases = []
+    for it in range(4 if big else 2):
+        cases.append(dict(kind="mock", n=int(rng.integers(4, 12)), box=int([6, 7][it % 2]), noise=[0.5, 0.0, 1.0, 0.0][it % 4],
+                          degrees=bool(it % 4 != 3), central_axis=[None, [0.0, 0.6, 0.8], [0.0, 1.0, 0.0], None][it % 4],
+                          seed=int(rng.integers(0, 10 ** 6))))
     for it in range(24 if big else 8):
         kind = "single" if it % 2 == 0 else "batch"
         ntomo = 1 if kind == "single" else int(rng.integers(2, 4))
@@ -241,10 +300,13 @@ def oracle(rng, thorough, deep=False, hints=None):
     for c in cases:
         stats["by_kind"][c["kind"]] = stats["by_kind"].get(c["kind"], 0) + 1
         stats["odd_n"] += c["n"] % 2
-        viols += run_case(c)
+        viols += run_mock(c) if c["kind"] == "mock" else run_case(c)
     return len(cases), viols, stats
 
 
 def replay(payload):
+    if payload["input"].get("kind") == "mock":
+        v = run_mock(dict(payload["input"]))
+        return {"violated": bool(v), "violations": v}
     v = run_case(dict(payload["input"]))
     return {"violated": bool(v), "violations": v}
